@@ -90,15 +90,16 @@ func (w *W) dial(addr, name string) (net.Conn, error) {
 		return nil, ErrRefused
 	}
 	d := &Dial{W: w, Seq: len(w.Dials), Host: addr, Name: name, State: "pending", gate: make(chan dialResult, 1)}
-	w.Dials = append(w.Dials, d)
-	mode := w.DialMode[name]
-	w.dmu.Unlock()
-	switch mode {
+	// with a fixed answer the attempt never rests in the pending state (a pending dial is a state
+	// the environment may settle in)
+	switch w.DialMode[name] {
 	case "accept":
-		d.Accept()
+		d.acceptLocked()
 	case "refuse":
-		d.Refuse()
+		d.refuseLocked()
 	}
+	w.Dials = append(w.Dials, d)
+	w.dmu.Unlock()
 	r := <-d.gate
 	return r.c, r.err
 }
@@ -106,23 +107,30 @@ func (w *W) dial(addr, name string) (net.Conn, error) {
 // Accept lets the pending dial succeed; the returned origin answers the handshake and commands when
 // pumped (Settle pumps it).
 func (d *Dial) Accept() *RtmpOrigin {
+	d.W.dmu.Lock()
+	defer d.W.dmu.Unlock()
+	return d.acceptLocked()
+}
+
+func (d *Dial) acceptLocked() *RtmpOrigin {
 	w := d.W
-	w.dmu.Lock()
-	defer w.dmu.Unlock()
 	if d.State != "pending" {
 		return d.Origin
 	}
-	d.State = "accepted"
 	d.Conn = w.Net.NewClientConn(fmt.Sprintf("dial%d-%s", d.Seq, d.Name))
 	d.Origin = &RtmpOrigin{W: w, Conn: d.Conn, dec: ref.NewChunkDecoder(128), enc: ref.NewChunkEncoder(128), hsIn: 1 + 1536 + 1536, Auto: true}
+	d.State = "accepted"
 	d.gate <- dialResult{c: d.Conn}
 	return d.Origin
 }
 
 func (d *Dial) Refuse() {
-	w := d.W
-	w.dmu.Lock()
-	defer w.dmu.Unlock()
+	d.W.dmu.Lock()
+	defer d.W.dmu.Unlock()
+	d.refuseLocked()
+}
+
+func (d *Dial) refuseLocked() {
 	if d.State != "pending" {
 		return
 	}
@@ -146,11 +154,10 @@ func (w *W) PendingDials() []*Dial {
 // LiveDials lists accepted dials whose connection lal has not closed.
 func (w *W) LiveDials() []*Dial {
 	w.dmu.Lock()
-	ds := append([]*Dial{}, w.Dials...)
-	w.dmu.Unlock()
+	defer w.dmu.Unlock()
 	var out []*Dial
-	for _, d := range ds {
-		if d.State == "accepted" && !d.Conn.Closed() {
+	for _, d := range w.Dials {
+		if d.State == "accepted" && d.Conn != nil && !d.Conn.Closed() {
 			out = append(out, d)
 		}
 	}
@@ -192,8 +199,15 @@ func (w *W) settleRelay() error {
 		// every relay goroutine is parked on a pending dial or on a live idle connection, and every
 		// push whose target has answered has gone through AddRtmpPushSession
 		if gor == pend+len(live)+w.PsExpected && pushAdds == startedPush {
-			// the network must still be quiet (a goroutine may have moved between the two looks)
-			if w.Net.IsQuiescent() {
+			// the network must still be quiet (a goroutine may have moved between the two looks) and no
+			// origin may have unread output (a dial accepted after this round's pump)
+			unread := false
+			for _, d := range live {
+				if d.Conn.HasOutput() {
+					unread = true
+				}
+			}
+			if !unread && w.Net.IsQuiescent() {
 				return nil
 			}
 			continue
